@@ -15,7 +15,7 @@ BASE = {
     "Keys": "<- c_Keys1", "KVals": "<- c_KVals2", "Names": "<- c_Names1", "Ids": "<- c_Ids2", "Vecs": "<- c_Vecs2",
     "MKeys": "<- c_MKeys1", "MVals": "<- c_MVals2", "Cfgs": "<- c_CfgsA", "Maints": "<- c_Maints1", "ALs": "<- c_ALs1",
     "Targets": "<- c_Targets", "GNodes": "<- c_Empty", "Rels": "<- c_Empty", "Ws": "<- c_Empty", "Ps": "<- c_Empty",
-    "GName": '"ix"', "CoreVacuum": "FALSE", "Devs": "<- c_Empty", "MaxFile": 3, "MaxCtr": 3, "MaxAcc": 1, "MaxVer": 2, "MaxOps": 5, "MaxRej": 2,
+    "GName": '"ix"', "CoreVacuum": "FALSE", "Seeded": "FALSE", "Devs": "<- c_Empty", "MaxFile": 3, "MaxCtr": 3, "MaxAcc": 1, "MaxVer": 2, "MaxOps": 5, "MaxRej": 2,
 }
 
 GRAPH = dict(BASE, **{
@@ -25,9 +25,11 @@ GRAPH = dict(BASE, **{
 })
 # smaller graph universe for exhaustive runs of the quick tier
 GRAPH_Q = dict(GRAPH, **{"GNodes": "<- c_GNodes2", "Ps": "<- c_Ps1", "Ids": "<- c_Ids1"})
+# C12: behaviours start from an index holding vectors a and b, so deletes are reachable within short histories
+SEEDED = dict(GRAPH, **{"Seeded": "TRUE", "Ps": "<- c_Ps1", "Ws": "<- c_Ws1", "Maints": "<- c_Empty"})
 
-INVS = ["Inv_CleanRestart", "Inv_RestartIdempotent", "Inv_IdMaps", "Inv_ListedIsReadable", "Inv_FwdRevAgree", "Inv_OneActive"]
-PROPS = ["Prop_RejectedNoChange", "Prop_MaintenanceInvisible", "Prop_ReopenIdentity"]
+INVS = ["Inv_CleanRestart", "Inv_RestartIdempotent", "Inv_IdMaps", "Inv_ListedIsReadable", "Inv_FwdRevAgree", "Inv_OneActive", "Inv_NoEdgeToDead"]
+PROPS = ["Prop_RejectedNoChange", "Prop_MaintenanceInvisible", "Prop_ReopenIdentity", "Prop_DeleteTouchesOnlyIncident"]
 
 
 def profile_for(consts, variant=0, dim=3):
@@ -98,9 +100,9 @@ def owner_of(div, beh):
     op = div.get("op") or {}
     name = op.get("op")
     if graph_only(div):
-        deleted_before = beh and any(s["op"].get("op") == "VDelete" and s["op"].get("res") == "ok"
+        deleted_before = beh and any(s["op"].get("op") in ("VDelete", "VDeleteCut") and s["op"].get("res") == "ok"
                                      for s in beh["steps"][: div.get("step", 0) + 1])
-        if name == "VDelete" or (deleted_before and name in ("Reopen",)):
+        if name in ("VDelete", "VDeleteCut") or (deleted_before and name in ("Reopen",)):
             return "C12"
         return "C10"
     if kind in OWNER:
@@ -165,7 +167,7 @@ def nontrivial(prop, ops):
     if prop == "C10":
         return sum(1 for n in names if n in GRAPH_OPS) >= 2
     if prop == "C12":
-        return any(o.get("op") == "VDelete" and o.get("res") == "ok" for o in ops) and "VLink" in names
+        return any(o.get("op") in ("VDelete", "VDeleteCut") and o.get("res") == "ok" for o in ops) and "VLink" in names
     return len(names) >= 2
 
 
@@ -181,7 +183,7 @@ def run(prop, tier):
     base = dict(BASE)
     graph = dict(GRAPH)
     use_base = prop in ("C01", "C04", "C05")
-    use_graph = prop in ("C01", "C10", "C12")
+    use_graph = prop in ("C01", "C10")
     need = lambda ops: nontrivial(prop, ops)
     plans = []   # (constants, behaviours)
     # 1. design level: TLC on the sequential engine model;  2. corpus: BFS state cover + random walks
@@ -211,6 +213,18 @@ def run(prop, tier):
         for i, b in enumerate(b2):
             b["id"] = "gw%d" % i
         plans.append((graph, b1 + b2))
+    if prop == "C12":
+        model_check(chk, "MC_Kektor_seeded", dict(SEEDED, MaxOps=3 if quick else 4), timeout=900 if quick else 3000)
+        cb = corpus(chk, "MC_Kektor_seeded_corpus", dict(SEEDED, MaxOps=3 if quick else 4), workers=4, timeout=1800)
+        cs = corpus(chk, "MC_Kektor_seeded_walks", dict(SEEDED, MaxOps=10, MaxFile=12, MaxCtr=5, MaxRej=1, MaxVer=3),
+                    simulate=200 if quick else 2000, depth=10, workers=1)
+        b1, _ = vlib.behaviours_from_corpus(cb, max_behaviours=200 if quick else 6000, rng=rng, need=need)
+        b2, _ = vlib.behaviours_from_corpus(cs, max_behaviours=100 if quick else 2000, rng=rng, need=need)
+        for i, b in enumerate(b1):
+            b["id"] = "s%d" % i
+        for i, b in enumerate(b2):
+            b["id"] = "sw%d" % i
+        plans.append((SEEDED, b1 + b2))
     total = sum(len(b) for _, b in plans)
     chk.cov["distinct_nontrivial"] = total
     chk.cov["rule"] = ("behaviours = leaves of the prefix tree of TLC's corpus (BFS: one shortest history per reachable state; "
